@@ -217,6 +217,10 @@ func (w *world) monitor(o op, cls Class, before, after *snap, en, al []bool, blo
 		if blockedAcc[o.R] {
 			return bad("blocked-recipient-refused", "blocked-recipient-accepted", fmt.Sprint(o.R))
 		}
+		if o.I == accM && lock.Sign() > 0 {
+			// a "lock" from the module's own address locks nothing
+			return bad("conversion-value", "lock-from-module-itself-accepted", fmt.Sprintf("amount %s", x))
+		}
 		// dust smaller than one sdk unit is never taken from the user
 		debit := new(big.Int).Sub(before.erc[o.C][o.I], after.erc[o.C][o.I])
 		if debit.Cmp(lock) > 0 {
@@ -637,6 +641,8 @@ func splits(o op, cls Class, err error, before, after *snap, en, al []bool, bloc
 			mark("e2c:blocked-recipient-refused")
 		case ek == "evm-revert":
 			mark("e2c:overdraw-refused")
+		case ek == "balance-delta-check":
+			mark("e2c:balance-delta-check-refused")
 		}
 		if ok && x.Sign() > 0 && eq(x, before.erc[o.C][o.I]) {
 			mark("amount:exact-balance-ok")
@@ -701,7 +707,7 @@ func splits(o op, cls Class, err error, before, after *snap, en, al []bool, bloc
 var allSplits = []string{
 	"c2e:disabled-refused", "c2e:ok:bep3", "c2e:ok:plain", "c2e:overdraw-refused", "c2e:balance-delta-check-refused",
 	"e2c:disabled-refused", "e2c:ok:bep3-with-dust", "e2c:ok:bep3-no-dust", "e2c:ok:plain", "e2c:dust-only-refused",
-	"e2c:blocked-recipient-refused", "e2c:overdraw-refused",
+	"e2c:blocked-recipient-refused", "e2c:overdraw-refused", "e2c:balance-delta-check-refused",
 	"cos2e:not-allowed-refused", "cos2e:ok:deploy", "cos2e:ok:existing", "cos2e:overdraw-refused",
 	"e2cos:unregistered-refused", "e2cos:ok", "e2cos:ok:denom-no-longer-allowed", "e2cos:overdraw-refused", "e2cos:blocked-recipient-refused",
 	"xfer:to-module-address", "xfer:uint256-wrap", "mint:total-supply-overflow-refused", "mint:wrapper-not-owner-refused",
